@@ -224,7 +224,9 @@ def no_oauth_scopes(a):
 @edit
 def api_version(a):
     a.main.service.append(service('Versioned', [
-        method('GetBook', Q('GetBookRequest'), Q('Book'), http=('get', '/v1/versioned/{name=books/*}'))],
+        method('GetBook', Q('GetBookRequest'), Q('Book'), http=('get', '/v1/versioned/{name=books/*}')),
+        # a paginated method with a path field, on a service that has an API version
+        method('ListBooks', Q('ListBooksRequest'), Q('ListBooksResponse'), http=('get', '/v1/versioned/{parent=shelves/*}/books'))],
         api_version='2024-01-01'))
 
 
@@ -487,6 +489,24 @@ def nested_field_named_like_module(a):
 
 
 @edit
+def service_only_file(a):
+    """A target file that declares a service and no message or enum."""
+    f = file('acme/lib/v1/catalog_service.proto', P, services=[service('CatalogOnly', [
+        method('LookUp', Q('GetBookRequest'), Q('Book'), http=('get', '/v1/{name=catalog/*}'), sigs=['name'])])])
+    a.add_file_after(f)
+
+
+@edit
+def target_named_like_dependency(a):
+    """A target file with the base name of a dependency file it takes a type from (status.proto / google/rpc/status.proto)."""
+    a.need_module('google.rpc.status_pb2')
+    f = file('acme/lib/v1/status.proto', P, messages=[message('JobStatus', [field('status', 1, '.google.rpc.Status'), field('job', 2, 'string')])])
+    a.add_file_before(f)
+    a._dep(f, 'google/rpc/status.proto')
+    a.rpc(method('GetJobStatus', Q('GetBookRequest'), Q('JobStatus'), http=('get', '/v1/{name=jobs/*}')))
+
+
+@edit
 def same_basename_imports(a):
     f1 = file('acme/lib/v1/common.proto', P, messages=[message('LocalCommon', [field('x', 1, 'string')])])
     a.add_file_before(f1)
@@ -553,6 +573,9 @@ def explicit_routing(a):
                  routing=[('table', 'shelves/*/{book_id=books/*}')]),
           method('RouteInfix', r, Q('Book'), http=('post', '/v1/{name=shelves/*}:routei', '*'),
                  routing=[('table', 'shelves/*/books/{leaf_id=*}/pages/*')]),
+          # one request value that resolves two different keys
+          method('RouteTwoKeys', r, Q('Book'), http=('post', '/v1/{name=shelves/*/books/*}:route2', '*'),
+                 routing=[('name', '{shelf_id=shelves/*}/books/*'), ('name', 'shelves/*/{book_id=books/*}')]),
           # explicit routing on a paginated method
           method('RouteList', Q('ListBooksRequest'), Q('ListBooksResponse'), http=('get', '/v1/{parent=shelves/*}/routedBooks'),
                  routing=[('parent', '{shelf_id=shelves/*}')], sigs=['parent']),
